@@ -347,3 +347,22 @@ Proof.
   - apply deleted_is_free.
   - unfold t_exists; rewrite E; reflexivity.
 Qed.
+
+(* ---------------------------------------------------------------------------------------------
+   the goroutine's removal of its name (repaired: only while the name still refers to its job) *)
+From Verif Require Import Model.C02_TableOps.
+
+Lemma release_keeps_newer : forall t n j1 j2, t_get t n = Some j2 -> j1 <> j2 -> t_release t n j1 = t.
+Proof.
+  intros t n j1 j2 H Hne. unfold t_release. rewrite H.
+  destruct (j2 =? j1) eqn:E; [apply N.eqb_eq in E; congruence | reflexivity].
+Qed.
+
+Lemma release_own : forall t n j, t_get t n = Some j -> t_exists (t_release t n j) n = false.
+Proof. intros t n j H. unfold t_release. rewrite H, N.eqb_refl. apply deleted_is_free. Qed.
+
+Lemma release_other_names : forall t n j m, m <> n -> t_get (t_release t n j) m = t_get t m.
+Proof.
+  intros t n j m Hne. unfold t_release. destruct (t_get t n) as [j'|]; [|reflexivity].
+  destruct (j' =? j); [|reflexivity]. apply t_get_del_other. congruence.
+Qed.
